@@ -682,7 +682,7 @@ class Gen:
             return [s]
         if c < 0.66:
             k = r.random()
-            i = self.fresh("i")
+            i = self.fresh("ix")
             self.readonly.add(i)
             bound = r.randrange(1, 5)
             inner_env = env + [(i, INT)]
